@@ -144,7 +144,7 @@ def snap_equal(a, b):
     return all(ka == kb and abs(va - vb) <= 1e-12 for (ka, va), (kb, vb) in zip(a[6], b[6]))
 
 
-CALLS = ("U1", "U0", "L+", "L-", "Lx", "U2", "L2")
+CALLS = ("U1", "U0", "L+", "L-", "Lx", "U2", "L2", "Le")
 
 
 def call_args(c, m, thr=0.0):
@@ -165,6 +165,10 @@ def call_args(c, m, thr=0.0):
         return "label", row(a, y=0, b=b), (a, b, 0)  # incorrect
     if c == "Lx":
         return "label", row(a, y=1, b=b, cols={"b": "zzz"}), None
+    if c == "Le":
+        df = row(a, y=1, b=b)
+        df["extra"] = 1.0  # every reference column plus one more: the columns differ from the reference's
+        return "label", df, None
     if c == "L2":
         return "label", pd.concat([row(a, y=1, b=b), row(a, y=1, b=b + 0.5)], ignore_index=True), None  # two labelled rows at once
     raise ValueError(c)
@@ -207,7 +211,7 @@ def apply_call(det, m, c, ctx, base, counts):
                 m.waiting = True
                 counts["warnings"] += 1
     else:
-        if (not m.waiting) or c in ("Lx", "L2"):
+        if (not m.waiting) or c in ("Lx", "L2", "Le"):
             expect_raise = True
         else:
             m.state = None
@@ -336,7 +340,7 @@ def reach_start(det, m, start, cfg, ctx, base, counts):
 
 
 def cases(tier, seed):
-    depth = 5 if tier == "quick" else 7
+    depth = 4 if tier == "quick" else 6
     acc_depth = 11 if tier == "quick" else 15
     out = []
     for ci, cfg in enumerate(EXH_CFGS):
@@ -352,9 +356,9 @@ def cases(tier, seed):
 def targets(tier):
     k = 1 if tier == "quick" else 10
     t = {"calls_compared": 200000 * k, "warnings": 5000 * k, "confirmed": 200 * k, "ruled_out": 200 * k, "labels_accepted": 5000 * k,
-         "reference_fold_logs_checked": 500, "exhaustive_sequences": 80000 * (1 if tier == "quick" else 36), "state_graph_nodes": 50000 * k,
+         "reference_fold_logs_checked": 500, "exhaustive_sequences": 50000 * (1 if tier == "quick" else 50), "state_graph_nodes": 50000 * k,
          "oracle_fold_logs_checked": 1000 * k}
-    for c in ("U1", "U0", "L+", "L-", "Lx", "U2", "L2"):
+    for c in ("U1", "U0", "L+", "L-", "Lx", "U2", "L2", "Le"):
         t["refused:" + c] = 50 * k
     return t
 
@@ -384,7 +388,7 @@ def run_case(case, ctx):
         def refused_by_spec(m, c):
             if c in ("U1", "U0", "U2"):
                 return m.waiting or c == "U2"
-            return (not m.waiting) or c in ("Lx", "L2")
+            return (not m.waiting) or c in ("Lx", "L2", "Le")
 
         def explore(det, m, path, full_left, acc_left):
             """full_left: remaining length of the complete enumeration (every letter continued); acc_left: remaining number of
@@ -441,11 +445,11 @@ def run_case(case, ctx):
             return
     ctx.count("reference_fold_logs_checked")
     calls = []
-    p = rng.dirichlet([3, 3, 2, 2, 0.5, 0.5, 0.5])
+    p = rng.dirichlet([3, 3, 2, 2, 0.5, 0.5, 0.5, 0.5])
     for i in range(int(rng.integers(100, 400))):
         # bias towards legal calls so that the protocol advances
         if m.waiting:
-            c = str(rng.choice(CALLS, p=[0.04, 0.04, 0.4, 0.4, 0.04, 0.04, 0.04]))
+            c = str(rng.choice(CALLS, p=[0.04, 0.04, 0.4, 0.4, 0.03, 0.03, 0.03, 0.03]))
         else:
             c = str(rng.choice(CALLS, p=p))
         calls.append(c)
@@ -465,4 +469,4 @@ def finalize(counters, tier, records):
             "exhaustive_scope": "all call sequences of length %d over 6 call kinds x 4 configurations x 4 start states (each continuation "
                                 "executed on a deep copy of the real detector), continued as a state graph over accepted calls to %d accepted "
                                 "calls with every refused call checked at every node; random interleavings are sampled" % (
-                                    (5, 11) if tier == "quick" else (7, 15))}
+                                    (4, 11) if tier == "quick" else (6, 15))}
